@@ -120,10 +120,11 @@ def capContent (code len : Nat) (body : Bytes) : Outcome Unit :=
       | some (_, dl :: r2) => req (decide (dl.toNat ≤ r2.length))
       | _ => .err
     | [] => .err
-  | 75 | 76 =>
+  | 75 =>
     match body with
     | n :: r => req (decide (n.toNat ≤ r.length))
     | [] => .err
+  | 76 => req (decide (len ≤ body.length))   -- PathsLimit: `advance(len)` (after the fix)
   | 128 => req (len == 0)
   | _ => .ok ()
 
